@@ -2033,6 +2033,8 @@ void SoPlexBase<R>::_solveRealForRationalStable(
 
       if(intParam(SoPlexBase<R>::OBJSENSE) == SoPlexBase<R>::OBJSENSE_MINIMIZE)
          sol._objVal *= -1;
+
+      sol._objVal += _rationalLP->objOffset();
    }
 
    // set objective coefficients for all rows to zero
@@ -2366,6 +2368,8 @@ void SoPlexBase<R>::_performOptIRStable(
 
       if(intParam(SoPlexBase<R>::OBJSENSE) == SoPlexBase<R>::OBJSENSE_MINIMIZE)
          sol._objVal *= -1;
+
+      sol._objVal += _rationalLP->objOffset();
    }
 
    // set objective coefficients for all rows to zero
@@ -2971,6 +2975,8 @@ void SoPlexBase<R>::_solveRealForRationalBoostedStable(
 
          if(intParam(SoPlexBase<R>::OBJSENSE) == SoPlexBase<R>::OBJSENSE_MINIMIZE)
             sol._objVal *= -1;
+
+         sol._objVal += _rationalLP->objOffset();
       }
 
       // set objective coefficients for all rows to zero
@@ -3341,6 +3347,8 @@ void SoPlexBase<R>::_performOptIRStableBoosted(
 
          if(intParam(SoPlexBase<R>::OBJSENSE) == SoPlexBase<R>::OBJSENSE_MINIMIZE)
             sol._objVal *= -1;
+
+         sol._objVal += _rationalLP->objOffset();
       }
 
       // set objective coefficients for all rows to zero
